@@ -18,6 +18,13 @@ use crate::storage::commands::executor::LuaCommandAdapter;
 /// error: the client gets an error reply, what its completed redis.call's did stays, the server goes on serving.
 const SCRIPT_TIME_LIMIT: Duration = Duration::from_secs(5);
 
+/// How much memory a script's Lua state may hold. An allocation beyond it fails with Lua's "not enough memory"
+/// error, which ends the script like any other error (error reply, completed redis.call's stay, server goes on).
+/// 1 GiB is twice the largest value a key can hold (512 MB): a script can still fetch and return a maximal value
+/// next to its ordinary data, but it can neither double such a value nor grow without bound - an unbounded script
+/// would otherwise take the whole process (and the only command thread) down with an allocation failure.
+const SCRIPT_MEMORY_LIMIT: usize = 1 << 30;
+
 /// Command execution context passed from server to Lua engine
 pub struct LuaCommandContext {
     pub db_index: usize,
@@ -41,18 +48,9 @@ impl LuaEngine {
         let lua = self.create_lua_context(ctx)?;
         self.setup_keys_and_args(&lua, keys, args)?;
         
-        // The script runs on the only command thread: bound its run time. A count hook (global: coroutines inherit it)
-        // looks at the clock every 100 000 VM instructions; past the limit it raises an error, and from then on at
-        // every instruction, so that a script that catches the error with pcall cannot go on either.
+        // The script runs on the only command thread: bound its run time
         let start_time = Instant::now();
-        lua.set_global_hook(HookTriggers::new().every_nth_instruction(100_000), move |lua, _debug| {
-            if start_time.elapsed() < SCRIPT_TIME_LIMIT {
-                return Ok(VmState::Continue);
-            }
-            let expired = || mlua::Error::RuntimeError(format!("script exceeded the time limit of {} s", SCRIPT_TIME_LIMIT.as_secs()));
-            lua.set_global_hook(HookTriggers::new().every_nth_instruction(1), move |_lua, _debug| Err(expired()))?;
-            Err(expired())
-        }).map_err(|e| FerrousError::LuaError(e.to_string()))?;
+        Self::install_time_limit_hook(&lua, start_time, false).map_err(|e| FerrousError::LuaError(e.to_string()))?;
         let result = lua.load(script).eval::<LuaValue>();
         
         match result {
@@ -91,6 +89,29 @@ impl LuaEngine {
                 }
             }
         }
+    }
+    
+    /// The hook that ends a script running longer than SCRIPT_TIME_LIMIT with a Lua error (global: coroutines inherit it).
+    /// It looks at the clock every 1 000 VM instructions and at every function return (redis.call's included) - one C
+    /// call (string.rep of hundreds of megabytes) can take a second, so counting instructions alone lets a loop of such
+    /// calls run for minutes before the first look. While the script holds more than 32 MiB (`fine`), single instructions can be that
+    /// expensive too (concatenating huge strings): then it looks every 10 instructions. Cost, measured: about 150 ns per
+    /// 1 000 instructions and 75 ns per function return - a 20M-iteration arithmetic loop 0.119 s -> 0.121 s, 300 000
+    /// redis.call('INCR') 0.225 s -> 0.253 s, a loop of 5M empty function calls 0.13 s -> 0.52 s. Past the limit the error
+    /// is raised again at every instruction, so that a script that catches it with pcall cannot go on either.
+    fn install_time_limit_hook(lua: &Lua, start_time: Instant, fine: bool) -> mlua::Result<()> {
+        let triggers = HookTriggers::new().every_nth_instruction(if fine { 10 } else { 1_000 }).on_returns();
+        lua.set_global_hook(triggers, move |lua, _debug| {
+            if start_time.elapsed() >= SCRIPT_TIME_LIMIT {
+                let expired = || mlua::Error::RuntimeError(format!("script exceeded the time limit of {} s", SCRIPT_TIME_LIMIT.as_secs()));
+                lua.set_global_hook(HookTriggers::new().every_nth_instruction(1), move |_lua, _debug| Err(expired()))?;
+                return Err(expired());
+            }
+            if (lua.used_memory() > 32 << 20) != fine {
+                Self::install_time_limit_hook(lua, start_time, !fine)?;
+            }
+            Ok(VmState::Continue)
+        })
     }
     
     pub fn script_load(&self, script: &str) -> Result<String> {
@@ -160,6 +181,7 @@ impl LuaEngine {
     /// Create Lua context with unified redis.call implementation
     fn create_lua_context(&self, ctx: &LuaCommandContext) -> Result<Lua> {
         let lua = Lua::new();
+        lua.set_memory_limit(SCRIPT_MEMORY_LIMIT).map_err(|e| FerrousError::LuaError(e.to_string()))?;
         
         // Remove dangerous functions for sandboxing
         let globals = lua.globals();
